@@ -467,6 +467,9 @@ func runC08(w *World, r *Report) {
 
 	// ---- 4. attribute isolation ----
 	attributeIsolation(w, r, "C08")
+	// an option written with its default value means the same as the option left out: the configuration is a function of the option
+	// values alone, each option honoured on its own
+	optionSemantics(w, r, "C08")
 
 	// ---- 5. inline vs prefixed placement ----
 	const rulePlace = "C08/attribute-placement"
